@@ -309,6 +309,9 @@ type TextCase struct {
 	Edit   string // "" (free text) or the name of the destructive edit applied to a valid expression
 	Reject bool   // the text must be rejected
 	Accept bool   // the text is grammatical and must be accepted
+	// ValidPrefix > 0: the first ValidPrefix bytes are a valid expression on their own and what
+	// follows makes the text invalid; the reported position cannot lie before that point
+	ValidPrefix int
 }
 
 func (c TextCase) text() string {
@@ -379,6 +382,13 @@ func CheckText(c TextCase) (v vcase.Verdict) {
 		v.Failf("parsing %q as %s: error offset %d outside the text (len %d)", text, c.Kind, off, len(text))
 		return
 	}
+	if c.ValidPrefix > 0 && c.ValidPrefix <= len(text) && off < c.ValidPrefix {
+		v.Failf("parsing %q as %s: the error (%v) is positioned at offset %d, inside the valid prefix %q; the offending text starts at offset %d", text, c.Kind, err, off, text[:c.ValidPrefix], c.ValidPrefix)
+		return
+	}
+	if c.ValidPrefix > 0 {
+		v.Label("error_position_checked")
+	}
 	if !strings.Contains(err.Error(), "syntax error") {
 		v.Failf("error text lacks position/\"syntax error\": %q", err.Error())
 	}
@@ -437,9 +447,12 @@ func GenText(t *rapid.T) TextCase {
 		if c.Kind == "filter" {
 			base, hasRe := genFilterText2(t)
 			text, c.Edit, c.Reject = editFilter(t, base, hasRe)
+			if c.Edit == "config_in_filter_appended" {
+				c.Edit, c.ValidPrefix = "config_in_filter", len(base)
+			}
 		} else {
 			base := genProjectionText(t)
-			text, c.Edit, c.Reject = editProjection(t, base)
+			text, c.Edit, c.Reject, c.ValidPrefix = editProjection(t, base)
 		}
 	}
 	c.Hex = fmt.Sprintf("%x", text)
@@ -591,7 +604,7 @@ func editFilter(t *rapid.T, base string, hasRegexp bool) (string, string, bool) 
 		term := rapid.SampledFrom([]string{".config:x", `.config:"a b"`, ".config:/re/", ".config:(a OR b)"}).Draw(t, "cfgterm")
 		switch rapid.IntRange(0, 5).Draw(t, "cfgpos") {
 		case 0:
-			return base + " " + term, "config_in_filter", true
+			return base + " " + term, "config_in_filter_appended", true
 		case 1:
 			return term + " " + base, "config_in_filter", true
 		case 2:
@@ -612,7 +625,19 @@ func editFilter(t *rapid.T, base string, hasRegexp bool) (string, string, bool) 
 	return base, "", false
 }
 
-func editProjection(t *rapid.T, base string) (string, string, bool) {
+func editProjection(t *rapid.T, base string) (text, edit string, reject bool, validPrefix int) {
+	valid := len(base)
+	text, edit, reject = editProjection0(t, base)
+	switch edit {
+	case "empty_fixed_list", "unknown_order", "unit_in_projection":
+		if strings.HasPrefix(text, base) {
+			validPrefix = valid
+		}
+	}
+	return
+}
+
+func editProjection0(t *rapid.T, base string) (string, string, bool) {
 	if vcase.OneIn(t, 5, "emptykeyinfix") {
 		// an empty quoted word in key position (itself rejected: "key must not be empty")
 		// in front of the destructive edit
